@@ -28,7 +28,7 @@ M = [
  ("limit-skip-off-by-one", "C08", "limit_plan.go", "func (p *FinalLimitPlan) Next(ctx *ExecuteCtx) ([]Column, error) {\n\tfor p.skips < p.Start {", "func (p *FinalLimitPlan) Next(ctx *ExecuteCtx) ([]Column, error) {\n\tfor p.skips <= p.Start && p.Start > 0 {"),
  ("aggr-no-clone", "C09", "aggregate_plan.go", "\t\t\t\tcol.Funcs = append(col.Funcs, f.Clone())", "\t\t\t\tcol.Funcs = append(col.Funcs, f)"),
  ("min-first-flag", "C09", "aggr_func.go", "\tif !f.first {\n\t\tf.first = true\n\t\tf.imin = ival", "\tif !f.first && ival < 0 {\n\t\tf.first = true\n\t\tf.imin = ival"),
- ("desc-sign", "C07", "order_plan.go", "func (l *orderColumnsRow) compareFloat(lval, rval float64, reverse bool) int {\n\tif lval == rval {\n\t\treturn 0\n\t}\n\tif reverse {\n\t\tif lval > rval {\n\t\t\treturn -1", "func (l *orderColumnsRow) compareFloat(lval, rval float64, reverse bool) int {\n\tif lval == rval {\n\t\treturn 0\n\t}\n\tif reverse {\n\t\tif lval < rval {\n\t\t\treturn -1"),
+ ("desc-sign", "C07", "order_plan.go", "\tif lval == rval {\n\t\treturn 0\n\t}\n\tif reverse {\n\t\tif lval > rval {\n\t\t\treturn -1\n\t\t} else {\n\t\t\treturn 1\n\t\t}\n\t}\n\tif lval < rval {\n\t\treturn -1\n\t} else {\n\t\treturn 1\n\t}\n}\n\ntype orderColumnsRowHeap", "\tif lval == rval {\n\t\treturn 0\n\t}\n\tif reverse {\n\t\tif lval < rval {\n\t\t\treturn -1\n\t\t} else {\n\t\t\treturn 1\n\t\t}\n\t}\n\tif lval < rval {\n\t\treturn -1\n\t} else {\n\t\treturn 1\n\t}\n}\n\ntype orderColumnsRowHeap"),
  ("second-key-ignored", "C07", "order_plan.go", "\t\tif compare < 0 {\n\t\t\treturn true\n\t\t} else if compare > 0 {\n\t\t\treturn false\n\t\t}", "\t\tif compare < 0 {\n\t\t\treturn true\n\t\t} else if compare > 0 || i > 0 {\n\t\t\treturn false\n\t\t}"),
  ("upper-vec-lower", "C03,C10", "scalar_func_vec.go", "\t\targ := toString(rarg[i])\n\t\tret[i] = strings.ToUpper(arg)", "\t\targ := toString(rarg[i])\n\t\tif len(arg) > 3 {\n\t\t\targ = strings.ToLower(arg)\n\t\t}\n\t\tret[i] = strings.ToUpper(arg[:len(arg)])\n\t\tif len(arg) > 3 {\n\t\t\tret[i] = arg\n\t\t}"),
  ("split-arg-swap-vec", "C03,C10", "scalar_func_vec.go", "\t\tvalues[i] = strings.Split(val, spliter)", "\t\tvalues[i] = strings.Split(val, spliter)\n\t\tif len(spliter) > 1 {\n\t\t\tvalues[i] = strings.Split(spliter, val)\n\t\t}"),
